@@ -786,3 +786,167 @@ fn err_then_refeed() {
     kani::cover!(r.is_some());
     std::mem::forget(r);
 }
+
+// ------------------------------------------------------------------------------------------------
+// C09: chunking independence of a whole feed.
+//
+// A feed (`for e in parser.feed_bytes(buf)`) is the iteration of `next()` until it returns None. The step
+// contracts above prove that every `next()` from an Inv state on a buffer of <= MAXB bytes behaves exactly
+// like spec_step and re-establishes Inv -- so a feed of the real parser is the iteration of spec_step
+// (`spec_feed` below). The relational contract is proved on that iteration, for every Inv state, every
+// buffer B of <= MAXB bytes and every cut k:
+//
+//     feed(S, B)   ==   feed(S, B[..k]) ; feed(S', B[c..])      where c = bytes consumed by the first feed
+//
+// (the API: bytes not consumed are offered again, followed by the new bytes). "==" is: same error status,
+// same event sequence once adjacent payload events are merged -- payloads are compared as ranges of B, which
+// is stronger than comparing their bytes --, same final state, same total consumption.
+// Any breaking change of the real parser is caught by the step contracts (they carry the C09 tag too).
+// ------------------------------------------------------------------------------------------------
+const MAXEV: usize = 10;
+
+struct Log {
+    n: usize,
+    ev: [Ev; MAXEV],
+    rejected: Option<u8>,
+    overflow: bool,
+}
+
+impl Log {
+    fn new() -> Self {
+        Log { n: 0, ev: [Ev::NoMoreAux; MAXEV], rejected: None, overflow: false }
+    }
+    /// Records an event; payload events that continue the previous payload event are merged into it and
+    /// empty payload events (which deliver nothing) are dropped.
+    fn push(&mut self, e: Ev) {
+        match e {
+            Ev::Data { len: 0, .. } | Ev::Code { len: 0, .. } => return,
+            _ => {}
+        }
+        if self.n > 0 {
+            match (self.ev[self.n - 1], e) {
+                (Ev::Data { ty: a, off: o, len: l }, Ev::Data { ty: b, off: o2, len: l2 }) if a == b && o + l == o2 => {
+                    self.ev[self.n - 1] = Ev::Data { ty: a, off: o, len: l + l2 };
+                    return;
+                }
+                (Ev::Code { off: o, len: l }, Ev::Code { off: o2, len: l2 }) if o + l == o2 => {
+                    self.ev[self.n - 1] = Ev::Code { off: o, len: l + l2 };
+                    return;
+                }
+                _ => {}
+            }
+        }
+        if self.n >= MAXEV {
+            self.overflow = true;
+            return;
+        }
+        self.ev[self.n] = e;
+        self.n += 1;
+    }
+}
+
+fn shifted(e: Ev, by: usize) -> Ev {
+    match e {
+        Ev::Data { ty, off, len } => Ev::Data { ty, off: off + by, len },
+        Ev::Code { off, len } => Ev::Code { off: off + by, len },
+        other => other,
+    }
+}
+
+/// Iterates spec_step over `buf` (which starts at offset `origin` of the whole stream) until it is quiet
+/// or rejects. Returns the number of bytes consumed.
+fn spec_feed(s: &mut AState, buf: &[u8], origin: usize, log: &mut Log) -> usize {
+    let mut pos = 0usize;
+    let mut i = 0;
+    // 24 bytes yield at most 8 events (see MAXEV), + 1 quiet step
+    while i < MAXEV {
+        i += 1;
+        let st = spec_step(*s, &buf[pos..]);
+        match st.out {
+            Out::Quiet => {
+                *s = st.next;
+                return pos + st.consumed;
+            }
+            Out::Reject(k) => {
+                log.rejected = Some(k);
+                return pos;
+            }
+            Out::Event(e) => {
+                log.push(shifted(e, origin + pos));
+                *s = st.next;
+                pos += st.consumed;
+            }
+        }
+    }
+    log.overflow = true;
+    pos
+}
+
+fn chunking_contract(phase: u8) {
+    let data: [u8; MAXB] = kani::any();
+    let len: usize = kani::any();
+    let k: usize = kani::any();
+    kani::assume(len <= MAXB && k <= len);
+
+    let (_parts, parser) = any_inv_state(phase);
+    let s0 = abs(&parser);
+
+    // at once
+    let mut sa = s0;
+    let mut la = Log::new();
+    let ca = spec_feed(&mut sa, &data[..len], 0, &mut la);
+
+    // in two feeds
+    let mut sb = s0;
+    let mut lb = Log::new();
+    let c1 = spec_feed(&mut sb, &data[..k], 0, &mut lb);
+    let mut cb = c1;
+    if lb.rejected.is_none() {
+        cb += spec_feed(&mut sb, &data[c1..len], c1, &mut lb);
+    }
+
+    assert!(!la.overflow && !lb.overflow, "[C09] event bound of the harness is large enough");
+    kani::cover!(la.n >= 3 && la.rejected.is_none() && k > 0 && k < len);
+    kani::cover!(la.rejected.is_some() && k > 0 && k < len);
+
+    assert!(la.rejected == lb.rejected, "[C09,C10] feeding in two chunks rejects exactly when feeding at once does");
+    assert!(la.n == lb.n, "[C09,C10] same number of events (payload events merged)");
+    let i: usize = kani::any();
+    kani::assume(i < la.n && i < MAXEV);
+    assert!(la.ev[i] == lb.ev[i], "[C09,C10] same events in the same order, payloads cover the same bytes");
+    if la.rejected.is_none() {
+        assert!(sa == sb, "[C09] same final parser state");
+        assert!(ca == cb, "[C09] same total consumption");
+        assert!(inv_abs(&sa), "[C09,C01] Inv");
+    }
+}
+
+#[kani::proof]
+#[kani::unwind(14)]
+fn chunking_from_signature() {
+    chunking_contract(0);
+}
+
+#[kani::proof]
+#[kani::unwind(14)]
+fn chunking_from_box_header() {
+    chunking_contract(1);
+}
+
+#[kani::proof]
+#[kani::unwind(14)]
+fn chunking_from_jxlp_index() {
+    chunking_contract(2);
+}
+
+#[kani::proof]
+#[kani::unwind(14)]
+fn chunking_from_aux_box() {
+    chunking_contract(3);
+}
+
+#[kani::proof]
+#[kani::unwind(14)]
+fn chunking_from_codestream() {
+    chunking_contract(4);
+}
